@@ -353,6 +353,9 @@ func Run(opts *Options) (int, error) {
 					if reading {
 						reader.terminate()
 					}
+					if nextCommand != nil {
+						removeFiles(nextCommand.tempFiles)
+					}
 					quitSignal := value.(quitSignal)
 					exitCode = quitSignal.code
 					err = quitSignal.err
@@ -425,6 +428,10 @@ func Run(opts *Options) (int, error) {
 					if command != nil {
 						if reading {
 							reader.terminate()
+							if nextCommand != nil {
+								// Superseded before it was started
+								removeFiles(nextCommand.tempFiles)
+							}
 							nextCommand = command
 							nextEnviron = environ
 						} else {
